@@ -15,7 +15,7 @@
    texts need no word broken at the width at hand; texts without any "<" are never a problem. *)
 From Coq Require Import Lia.
 From Clikit Require Import Base.Prelude Base.Res Model.Conv Model.Flags Model.Format Model.Markup Model.Wrap Model.Help.
-From Clikit Require Import Proofs.WrapLemmas Proofs.HelpLemmas Proofs.MarkupLemmas Proofs.LiteralLemmas Proofs.MarkupShrinkLemmas Proofs.HelpPlainLemmas.
+From Clikit Require Import Proofs.WrapLemmas Proofs.HelpLemmas Proofs.MarkupLemmas Proofs.LiteralLemmas Proofs.MarkupShrinkLemmas Proofs.HelpPlainLemmas Proofs.HelpCleanLemmas.
 
 (* ================= A. the effect of a message on the style stack ================= *)
 (* do_tag, the stack only *)
@@ -1440,4 +1440,218 @@ Proof.
   replace (odesc (h_adesc a) ++ [32;60;98;62]%N ++ json (a_default (h_a a)) ++ [60;47;98;62]%N)
     with (odesc (h_adesc a) ++ 32%N :: (B_OPEN ++ json (a_default (h_a a)) ++ B_CLOSE)) by reflexivity.
   apply (calm_behind_desc sty (odesc (h_adesc a)) (B_OPEN ++ json (a_default (h_a a)) ++ B_CLOSE) Hd). now apply bold_calm.
+Qed.
+
+(* ================= K. the help pages ================= *)
+(* what does not depend on the width: labels calm, texts without "<" or calm *)
+Definition elem_fine (sty : styles) (e : elem) : Prop :=
+  match e with
+  | EEmpty => True
+  | EPara t => markup_fine sty t
+  | ELab label text padding _ =>
+    neutral sty false label /\ ends_with_bsl label = false /\ (1 <= padding)%nat /\ markup_fine sty text
+  end.
+Definition page_fine (sty : styles) (l : layout) : Prop := Forall (fun x => elem_fine sty (snd x)) l.
+(* what does: the words of every text that holds a "<" fit the element's wrap width *)
+Definition page_words_fit (sty : styles) (W : Z) (l : layout) : Prop :=
+  Forall (fun x => no_lt (elem_text (snd x)) \/
+                   words_fit (wrap_width W (align_vis sty l 0) (fst x) (vis_of sty (elem_label (snd x))) (snd x)) (elem_text (snd x))) l.
+Lemma fine_ok sty W l : page_fine sty l -> page_words_fit sty W l -> layout_ok sty W l.
+Proof.
+  unfold page_fine, page_words_fit, layout_ok. rewrite !Forall_forall. intros Hf Hw x Hx. specialize (Hf x Hx). specialize (Hw x Hx).
+  destruct x as [ind e]. cbn [fst snd] in *. destruct e as [t|label text padding aligned|]; cbn [elem_fine elem_ok elem_text elem_label] in *.
+  - destruct Hw as [Hw|Hw]; [now left|]. destruct Hf as [Hf|[H1 H2]]; [now left|right]. repeat split; assumption.
+  - destruct Hf as (H1 & H2 & H3 & Hf). repeat split; try assumption.
+    destruct Hw as [Hw|Hw]; [now left|]. destruct Hf as [Hf|[H4 H5]]; [now left|right]. repeat split; assumption.
+  - exact I.
+Qed.
+
+Lemma fl_app sty a b : page_fine sty a -> page_fine sty b -> page_fine sty (a ++ b).
+Proof. intros. apply Forall_app. auto. Qed.
+Lemma fl_cons sty x l : elem_fine sty (snd x) -> page_fine sty l -> page_fine sty (x :: l).
+Proof. intros. constructor; assumption. Qed.
+Lemma fl_nil sty : page_fine sty []. Proof. constructor. Qed.
+Lemma fl_block sty l : page_fine sty l -> page_fine sty (block l).
+Proof. unfold page_fine, block. induction 1 as [|[i e] l H Hl IH]; cbn [map]; constructor; auto. Qed.
+Lemma fl_at0 sty es : Forall (elem_fine sty) es -> page_fine sty (at0 es).
+Proof. unfold page_fine, at0. induction 1; cbn [map]; constructor; auto. Qed.
+Lemma fl_empty sty i : page_fine sty [(i, EEmpty)].
+Proof. constructor; [exact I|constructor]. Qed.
+Lemma calm_label sty label : calm sty label -> neutral sty false label /\ ends_with_bsl label = false.
+Proof. intros (H1 & _ & H3). split; [exact H3|now apply quiet_ends]. Qed.
+
+Lemma heading_fine sty x : no_lt x -> ends_with_bsl x = false -> markup_fine sty (B_OPEN ++ x ++ B_CLOSE).
+Proof. intros. apply calm_fine. now apply bold_calm. Qed.
+Ltac heading := apply heading_fine; [repeat constructor; discriminate|reflexivity].
+Lemma H_USAGE_fine sty : markup_fine sty H_USAGE.
+Proof. change H_USAGE with (B_OPEN ++ [85;83;65;71;69]%N ++ B_CLOSE). heading. Qed.
+Lemma H_ARGUMENTS_fine sty : markup_fine sty H_ARGUMENTS.
+Proof. change H_ARGUMENTS with (B_OPEN ++ [65;82;71;85;77;69;78;84;83]%N ++ B_CLOSE). heading. Qed.
+Lemma H_COMMANDS_fine sty : markup_fine sty H_COMMANDS.
+Proof. change H_COMMANDS with (B_OPEN ++ [67;79;77;77;65;78;68;83]%N ++ B_CLOSE). heading. Qed.
+Lemma H_OPTIONS_fine sty : markup_fine sty H_OPTIONS.
+Proof. change H_OPTIONS with (B_OPEN ++ [79;80;84;73;79;78;83]%N ++ B_CLOSE). heading. Qed.
+Lemma H_GLOBAL_fine sty : markup_fine sty H_GLOBAL.
+Proof. change H_GLOBAL with (B_OPEN ++ [71;76;79;66;65;76;32;79;80;84;73;79;78;83]%N ++ B_CLOSE). heading. Qed.
+Lemma H_AVAILABLE_fine sty : markup_fine sty H_AVAILABLE.
+Proof. change H_AVAILABLE with (B_OPEN ++ [65;86;65;73;76;65;66;76;69;32;67;79;77;77;65;78;68;83]%N ++ B_CLOSE). heading. Qed.
+Lemma H_DESCRIPTION_fine sty : markup_fine sty [60;98;62;68;69;83;67;82;73;80;84;73;79;78;60;47;98;62]%N.
+Proof. change [60;98;62;68;69;83;67;82;73;80;84;73;79;78;60;47;98;62]%N with (B_OPEN ++ [68;69;83;67;82;73;80;84;73;79;78]%N ++ B_CLOSE). heading. Qed.
+
+Lemma render_option_fine sty h : opt_fine h -> elem_fine sty (render_option h).
+Proof.
+  intros Hf. pose proof (option_text_fine sty h Hf) as Ht. pose proof Hf as (H1 & H2 & _).
+  pose proof (calm_label sty _ (option_label_calm sty h H1 H2)) as [L1 L2]. revert Ht L1 L2.
+  unfold render_option. destruct (opt_preferred (h_o h)) as [pref alt]. cbn [elem_text elem_label elem_fine]. intros Ht L1 L2.
+  repeat split; auto.
+Qed.
+Lemma render_argument_fine sty a : arg_fine a -> elem_fine sty (render_argument a).
+Proof.
+  intros Hf. pose proof (argument_text_fine sty a Hf) as Ht. pose proof Hf as (H1 & _).
+  pose proof (calm_label sty _ (argument_label_calm sty a H1)) as [L1 L2]. revert Ht L1 L2.
+  unfold render_argument. cbn [elem_text elem_label elem_fine]. intros Ht L1 L2. repeat split; auto.
+Qed.
+Lemma fl_args sty l : Forall arg_fine l -> page_fine sty (at0 (map render_argument l)).
+Proof. intros H. apply fl_at0. induction H; cbn [map]; constructor; auto using render_argument_fine. Qed.
+Lemma fl_opts sty l : Forall opt_fine l -> page_fine sty (at0 (map render_option l)).
+Proof. intros H. apply fl_at0. induction H; cbn [map]; constructor; auto using render_option_fine. Qed.
+Lemma synopsis_fine sty app_name names opts args prefix lo :
+  (match app_name with Some n => plain n | None => True end) -> Forall plain names -> plain prefix ->
+  Forall opt_fine opts -> Forall arg_fine args -> elem_fine sty (synopsis sty app_name names opts args prefix lo).
+Proof.
+  intros Ha Hn Hp Ho Hg. pose proof (calm_label sty _ (synopsis_label_calm sty app_name names opts args prefix lo Ha Hn Hp)) as [L1 L2].
+  pose proof (calm_fine sty _ (synopsis_text_calm sty app_name names opts args prefix lo Ho Hg)) as Ht. revert L1 L2 Ht.
+  unfold synopsis. cbv zeta. cbn [elem_label elem_text elem_fine]. intros L1 L2 Ht. repeat split; auto.
+Qed.
+
+Definition sub_fine (s : sub) : Prop :=
+  plain (sb_name s) /\ no_lt (odesc (sb_desc s)) /\ no_lt (odesc (sb_help s)) /\ Forall arg_fine (sb_args s) /\ Forall opt_fine (sb_opts s).
+Lemma usage_prefixes_plain n : Forall plain (usage_prefixes n).
+Proof.
+  unfold usage_prefixes. constructor; [destruct n as [|[|n]]; plain_const|].
+  apply Forall_forall. intros q Hq. apply repeat_spec in Hq. subst. plain_const.
+Qed.
+Lemma usage_section_fine sty app_name ch subs :
+  (match app_name with Some n => plain n | None => True end) -> Forall plain (chain_names ch) ->
+  Forall arg_fine (chain_args ch) -> Forall opt_fine (own_opts ch) -> Forall sub_fine subs ->
+  page_fine sty (usage_section sty app_name ch subs).
+Proof.
+  intros Ha Hc Hargs Hown Hs. unfold usage_section, page_fine. apply Forall_forall. intros x Hx.
+  apply in_map_iff in Hx. destruct Hx as ([e q] & <- & Hin).
+  pose proof (in_combine_l _ _ _ _ Hin) as He. pose proof (in_combine_r _ _ _ _ Hin) as Hq.
+  pose proof (usage_prefixes_plain (length (usage_entries ch subs))) as Hpre. rewrite Forall_forall in Hpre. specialize (Hpre q Hq).
+  unfold usage_line. cbn [fst snd]. destruct e as [[[names opts] args] lo]. cbn [snd].
+  apply usage_entry_origin in He. destruct He as [[E _]|(s & Hsin & _ & _ & E)].
+  - injection E as -> -> -> _. apply synopsis_fine; assumption.
+  - cbn [fst] in E. unfold sub_fmt in E. injection E as -> -> ->. rewrite Forall_forall in Hs.
+    destruct (Hs s Hsin) as (S1 & _ & _ & S4 & S5). apply synopsis_fine; [exact Ha| |exact Hpre|exact S5|].
+    + apply Forall_app. split; [exact Hc|]. destruct (sb_anonymous s); [constructor|]. constructor; [exact S1|constructor].
+    + apply Forall_app. split; assumption.
+Qed.
+Lemma u_tag_fine sty n : plain n -> markup_fine sty (u_tag n).
+Proof.
+  intros Hn. apply calm_fine. unfold u_tag. rewrite !munge_app. change (munge [60;117;62]%N) with [60;117;62]%N.
+  change (munge [60;47;117;62]%N) with [60;47;117;62]%N. apply (u_tag_calm sty (munge n)). now apply plain_munge.
+Qed.
+Lemma sub_block_fine sty s : sub_fine s -> page_fine sty (sub_block s).
+Proof.
+  intros (H1 & H2 & H3 & Ha & Ho). unfold sub_block. apply fl_cons; [now apply u_tag_fine|]. do 2 apply fl_block.
+  repeat apply fl_app.
+  - destruct (nonempty_opt (sb_desc s)) as [d|] eqn:E; [|apply fl_nil]. apply nonempty_odesc in E. subst d.
+    apply fl_cons; [now left|apply fl_empty].
+  - destruct (nonempty_opt (sb_help s)) as [d|] eqn:E; [|apply fl_nil]. apply nonempty_odesc in E. subst d.
+    apply fl_cons; [now left|apply fl_empty].
+  - destruct (sb_args s) as [|x l] eqn:E; [apply fl_nil|]. apply fl_app; [now apply fl_args|apply fl_empty].
+  - destruct (sb_opts s) as [|x l] eqn:E; [apply fl_nil|]. apply fl_app; [now apply fl_opts|apply fl_empty].
+  - destruct (nonempty_opt (sb_desc s)), (nonempty_opt (sb_help s)), (sb_args s), (sb_opts s); try apply fl_nil; apply fl_empty.
+Qed.
+Lemma description_block_fine sty help : no_lt (odesc help) -> page_fine sty (description_block help).
+Proof.
+  intros H. unfold description_block. destruct (nonempty_opt help) as [h|] eqn:E; [|apply fl_nil]. apply nonempty_odesc in E. subst h.
+  apply fl_cons; [apply H_DESCRIPTION_fine|]. apply fl_app; [|apply fl_empty].
+  unfold paragraphs. pose proof (split_on_P _ 10%N _ H) as Hs. induction Hs; cbn [map]; [apply fl_nil|]. apply fl_cons; [now left|assumption].
+Qed.
+Lemma global_options_fine sty l : Forall opt_fine l -> page_fine sty (global_options_section l).
+Proof.
+  intros H. unfold global_options_section. destruct l as [|x r]; [apply fl_nil|].
+  apply fl_cons; [apply H_GLOBAL_fine|]. apply fl_app; [apply fl_block; now apply fl_opts|apply fl_empty].
+Qed.
+
+Theorem command_page_fine sty app_name ch aliases help subs :
+  (match app_name with Some n => plain n | None => True end) -> Forall plain (chain_names ch) ->
+  Forall arg_fine (chain_args ch) -> Forall opt_fine (own_opts ch) -> Forall opt_fine (base_opts ch) ->
+  Forall sub_fine subs -> Forall no_lt aliases -> no_lt (odesc help) ->
+  page_fine sty (command_page sty app_name ch aliases help subs).
+Proof.
+  intros Ha Hc Hargs Hown Hbase Hsubs Hal Hh. rewrite command_page_sections.
+  repeat apply fl_app.
+  - apply fl_cons; [apply H_USAGE_fine|apply fl_nil].
+  - now apply usage_section_fine.
+  - unfold aliases_section. destruct aliases as [|a0 al]; [apply fl_nil|]. apply fl_cons; [exact I|]. apply fl_cons; [|apply fl_nil].
+    left. apply Forall_app. split; [repeat constructor; discriminate|]. apply join_comma_P; [discriminate|discriminate|exact Hal].
+  - apply fl_empty.
+  - unfold arguments_section. destruct (chain_args ch) as [|x l]; [apply fl_nil|].
+    apply fl_cons; [apply H_ARGUMENTS_fine|]. apply fl_app; [apply fl_block; now apply fl_args|apply fl_empty].
+  - unfold commands_section. destruct (named_subs subs); [apply fl_nil|]. apply fl_cons; [apply H_COMMANDS_fine|].
+    unfold page_fine. apply Forall_forall. intros x Hx. apply in_flat_map in Hx. destruct Hx as (s0 & Hs & Hx).
+    apply listed_subs_in in Hs. destruct Hs as [Hs _]. rewrite Forall_forall in Hsubs.
+    pose proof (sub_block_fine sty s0 (Hsubs s0 Hs)) as Hb. unfold page_fine in Hb. rewrite Forall_forall in Hb. now apply Hb.
+  - unfold options_section. destruct (own_opts ch) as [|x l]; [apply fl_nil|].
+    apply fl_cons; [apply H_OPTIONS_fine|]. apply fl_app; [apply fl_block; now apply fl_opts|apply fl_empty].
+  - now apply global_options_fine.
+  - now apply description_block_fine.
+Qed.
+
+Lemma builtin_args_fine : Forall arg_fine builtin_args.
+Proof.
+  assert (forall n, Forall (fun c => is_ascii_alpha c = true) n -> n <> [] -> plain n /\ ph_name n) as Hw.
+  { intros n Hn Hne. split; [split; eapply Forall_impl; try exact Hn; intros c Hc E; subst c; discriminate|].
+    split; [eapply Forall_impl; [|exact Hn]; intros c Hc; destruct (tw_space c) eqn:E; [|reflexivity];
+            unfold tw_space in E; apply existsb_exists in E as (x & Hin & Ex); apply N.eqb_eq in Ex; subst x;
+            cbn [In] in Hin; repeat (destruct Hin as [<-|Hin]; [discriminate|]); contradiction|].
+    left. split; [|split].
+    - destruct n as [|c r]; [congruence|]. inversion Hn; subst. split; [unfold tag_start; now rewrite H1|].
+      eapply Forall_impl; [|exact H2]. intros x Hx. unfold tag_char, tag_start. now rewrite Hx.
+    - intros Hin. rewrite Forall_forall in Hn. specialize (Hn _ Hin). discriminate.
+    - unfold py_lower. intros Hin. apply in_flat_map in Hin as (x & Hx & Hl). rewrite Forall_forall in Hn. specialize (Hn _ Hx).
+      unfold lower1 in Hl. destruct (is_upper x) eqn:Eu.
+      + destruct Hl as [Hl|[]]. unfold is_upper in Eu. apply andb_prop in Eu as [E1 E2]. apply N.leb_le in E1, E2. unfold EQS in Hl. lia.
+      + destruct (N.eqb x 304) eqn:E3; [apply N.eqb_eq in E3; subst x; discriminate|].
+        destruct (N.eqb x 8490) eqn:E4; [apply N.eqb_eq in E4; subst x; discriminate|].
+        destruct Hl as [Hl|[]]. subst x. discriminate. }
+  repeat constructor; cbn [the_command_arg the_arg_arg h_a h_adesc a_name a_default odesc];
+    try (apply Hw; [repeat constructor|discriminate]); try (repeat constructor; discriminate); try reflexivity;
+    cbn; intros H; repeat (destruct H as [H|H]; [discriminate|]); exact H.
+Qed.
+Lemma name_version_fine sty display version : no_lt (odesc display) -> plain (odesc version) -> elem_fine sty (name_version display version).
+Proof.
+  intros Hd Hv. unfold name_version. destruct (nonempty_opt display) as [d|] eqn:E1; [|left; repeat constructor; discriminate].
+  apply nonempty_odesc in E1. subst d. destruct (nonempty_opt version) as [v|] eqn:E2; [|now left].
+  apply nonempty_odesc in E2. subst v. cbn [elem_fine]. apply calm_fine.
+  set (d := odesc display) in *. set (v := odesc version) in *.
+  change (d ++ [32;118;101;114;115;105;111;110;32]%N ++ [60;99;49;62]%N ++ v ++ [60;47;99;49;62]%N)
+    with (d ++ 32%N :: ([118;101;114;115;105;111;110;32]%N ++ C1 ++ v ++ C1E)).
+  apply (calm_behind_desc sty d _ Hd). rewrite !munge_app. change (munge C1) with C1. change (munge C1E) with C1E.
+  change (munge [118;101;114;115;105;111;110;32]%N) with [118;101;114;115;105;111;110;32]%N.
+  apply calm_app; [apply plain_calm; plain_const|]. apply command_label_calm. now apply plain_munge.
+Qed.
+Theorem application_page_fine sty app_name display version gopts cmds help :
+  (match app_name with Some n => plain n | None => True end) ->
+  no_lt (odesc display) -> plain (odesc version) -> Forall opt_fine gopts ->
+  Forall (fun c => plain (ac_name c) /\ no_lt (ac_desc c)) cmds -> no_lt (odesc help) ->
+  page_fine sty (application_page sty app_name display version gopts cmds help).
+Proof.
+  intros Ha Hd Hv Hg Hc Hh. rewrite application_page_decomposes. unfold application_page_before.
+  repeat apply fl_app.
+  - apply fl_cons; [now apply name_version_fine|]. apply fl_cons; [exact I|]. apply fl_cons; [apply H_USAGE_fine|].
+    apply fl_cons; [|apply fl_empty]. apply synopsis_fine; [exact Ha|constructor|plain_const|exact Hg|exact builtin_args_fine].
+  - apply fl_cons; [apply H_ARGUMENTS_fine|]. apply fl_app; [|apply fl_empty]. apply fl_block, fl_args, builtin_args_fine.
+  - now apply global_options_fine.
+  - unfold available_section. destruct (named_cmds cmds); [apply fl_nil|]. apply fl_cons; [apply H_AVAILABLE_fine|].
+    apply fl_app; [|apply fl_empty].
+    unfold page_fine. apply Forall_forall. intros x Hx. apply in_map_iff in Hx. destruct Hx as (c0 & <- & Hin).
+    apply listed_cmds_in in Hin. destruct Hin as [Hin _]. rewrite Forall_forall in Hc. destruct (Hc c0 Hin) as [C1' C2'].
+    unfold cmd_line. cbn [snd elem_fine]. destruct (calm_label sty _ (command_label_calm sty _ C1')) as [L1 L2].
+    repeat split; auto. now left.
+  - now apply description_block_fine.
 Qed.
